@@ -3,6 +3,7 @@ package eng
 import (
 	"fmt"
 	"go/ast"
+	"go/constant"
 	"go/token"
 	"go/types"
 	"strings"
@@ -284,6 +285,46 @@ func ruleNoDisclosure(c *Check, w *World, rule string) {
 		n := t.N(p)
 		t.AddLabel(n, LK)
 	}
+	// provisioning URLs carry the secret in their query: whole renderings of a URL or of its query, and the
+	// "secret" query value, are secret; the other query values are not
+	t.ExtOverride = func(ci ssa.CallInstruction) (Label, bool) {
+		switch CalleeName(ci.Common()) {
+		case "(*net/url.URL).String", "(*net/url.URL).Redacted", "(*net/url.URL).RequestURI", "(*net/url.URL).MarshalBinary", "(net/url.Values).Encode":
+			return LK, true
+		case "(*net/url.URL).Query":
+			return 0, true
+		case "(net/url.Values).Get":
+			args := ci.Common().Args
+			if k, ok := args[len(args)-1].(*ssa.Const); ok && k.Value != nil && k.Value.Kind() == constant.String {
+				if constant.StringVal(k.Value) == "secret" {
+					return LK, true
+				}
+				return 0, true
+			}
+		}
+		return 0, false
+	}
+	for _, f := range fns {
+		EachInstr(f, func(in ssa.Instruction) {
+			fa, ok := in.(*ssa.FieldAddr)
+			if !ok {
+				return
+			}
+			if n := fieldName(fa.X.Type(), fa.Field); n != "RawQuery" && n != "Opaque" && n != "RawFragment" && n != "Fragment" {
+				return
+			}
+			if !strings.HasSuffix(fa.X.Type().String(), "net/url.URL") {
+				return
+			}
+			if refs := fa.Referrers(); refs != nil {
+				for _, r := range *refs {
+					if u, ok := r.(*ssa.UnOp); ok && u.Op == token.MUL {
+						t.AddLabel(t.N(u), LK)
+					}
+				}
+			}
+		})
+	}
 	t.Build()
 	t.Solve()
 	sites := 0
@@ -307,6 +348,10 @@ func ruleNoDisclosure(c *Check, w *World, rule string) {
 				l |= t.Eff(a)
 			}
 			construct := "error-constructor:" + name + ":" + firstStringArg(ci)
+			if ty := secretBearingArg(ci); ty != "" {
+				c.Bad(rule, FuncName(f), construct, "a value of type "+ty+" is formatted into an error: it prints the provisioning URL / parameter set including the secret", w.InstrPos(in))
+				return
+			}
 			switch {
 			case l&LH != 0:
 				c.Bad(rule, FuncName(f), construct, "an HMAC-derived value (the code that would be accepted, or data it is computed from) is formatted into an error", w.InstrPos(in))
@@ -337,6 +382,67 @@ func ruleNoDisclosure(c *Check, w *World, rule string) {
 		}
 	}
 	c.Count("error_constructor_sites", sites)
+}
+
+// secretBearingArg: an argument (also inside the variadic list) whose type prints the secret when formatted:
+// a URL, its query values, or a module struct with a Secret field.
+func secretBearingArg(ci ssa.CallInstruction) string {
+	bearing := func(t types.Type) string {
+		s := t.String()
+		for _, n := range []string{"net/url.URL", "net/url.Values", "net/url.Userinfo"} {
+			if strings.HasSuffix(s, n) {
+				return s
+			}
+		}
+		u := t
+		if p, ok := u.Underlying().(*types.Pointer); ok {
+			u = p.Elem()
+		}
+		if st, ok := u.Underlying().(*types.Struct); ok {
+			for i := 0; i < st.NumFields(); i++ {
+				if st.Field(i).Name() == "Secret" {
+					return s
+				}
+			}
+		}
+		return ""
+	}
+	var vals []ssa.Value
+	for _, a := range ci.Common().Args {
+		vals = append(vals, a)
+		if sl, ok := a.(*ssa.Slice); ok {
+			if al, ok := sl.X.(*ssa.Alloc); ok {
+				if refs := al.Referrers(); refs != nil {
+					for _, r := range *refs {
+						if ia, ok := r.(*ssa.IndexAddr); ok && ia.Referrers() != nil {
+							for _, rr := range *ia.Referrers() {
+								if st, ok := rr.(*ssa.Store); ok {
+									vals = append(vals, st.Val)
+								}
+							}
+						}
+					}
+				}
+			}
+		}
+	}
+	for _, v := range vals {
+		for {
+			switch x := v.(type) {
+			case *ssa.MakeInterface:
+				v = x.X
+				continue
+			case *ssa.ChangeInterface:
+				v = x.X
+				continue
+			}
+			break
+		}
+		if b := bearing(v.Type()); b != "" {
+			return b
+		}
+	}
+	return ""
 }
 
 func firstStringArg(ci ssa.CallInstruction) string {
